@@ -314,4 +314,32 @@ def InAdvertised (adv : PowerBounds) (p : Rat) : Prop :=
 instance (adv : PowerBounds) (p : Rat) : Decidable (InAdvertised adv p) := by
   unfold InAdvertised; infer_instance
 
+/-! ## The stream: `SendOnUpdate` between the component data and the subscribers of the pool's bounds
+
+`_update_and_notify` caches every fetched sample and sets the update event iff the sample is new or `!=` the cached one
+(`Extracted.Pool.updateIffChanged`); `ComponentMetricsData.__eq__` is equality of the stored values
+(`Extracted.Pool.metricsEqIsDataEq`), so "`!=`" is "the data differs".  `_send_on_update` recalculates from the cache
+whenever the event is set.  Abstractly, over any kind of data `α` with decidable equality and any calculation: -/
+
+structure PoolStream (α β : Type) where
+  /-- `_cached_metrics`: the latest data -/
+  cached : α
+  /-- `_update_event.is_set()` -/
+  pending : Bool
+  /-- the latest value sent on the result channel -/
+  streamed : β
+
+inductive PoolStreamEv (α : Type) where
+  /-- a fetched sample (the whole data after it arrived) -/
+  | sample (d : α)
+  /-- `_send_on_update` wakes up (the update interval elapsed) -/
+  | wake
+
+def PoolStream.step {α β : Type} [DecidableEq α] (recalc : α → β) (s : PoolStream α β) : PoolStreamEv α → PoolStream α β
+  | .sample d => { s with cached := d, pending := s.pending || decide (d ≠ s.cached) }
+  | .wake => if s.pending then { s with pending := false, streamed := recalc s.cached } else s
+
+def PoolStream.run {α β : Type} [DecidableEq α] (recalc : α → β) (s : PoolStream α β) (es : List (PoolStreamEv α)) : PoolStream α β :=
+  es.foldl (PoolStream.step recalc) s
+
 end PoolBounds
